@@ -68,6 +68,9 @@ static std::string payload(size_t n, int cls, unsigned salt) {
     return s;
 }
 
+// a writer with static storage duration: it is destroyed by exit(), after every function-local static that was first used later than program start
+static std::unique_ptr<BaseCborOutputWriter> g_static_writer;
+
 struct Step { int kind; size_t size; int cls; };   // kind 0 write, 1 rotate, 2 (only as first step) short-write cap of `size` bytes for the whole sequence
 static std::string steps_str(const std::vector<Step>& v) { std::string s; for (auto& x : v) s += x.kind == 2 ? "S" + std::to_string(x.size) + "," : x.kind ? "R," : "W" + std::to_string(x.size) + "c" + std::to_string(x.cls) + ","; return s; }
 
@@ -107,6 +110,27 @@ static void run_seq(int comp, int sink, const std::vector<Step>& steps, Result& 
     }
 }
 
+// "destruction" at process exit: a forked child writes through a writer of static storage duration and calls exit(); the output must be complete
+static void run_static_exit(int comp, int sink, Result& R, std::vector<CV>& out) {
+    std::string name = g_dir + "/s" + std::to_string(getpid()) + "_static"; const char* ext = comp == 1 ? ".gz" : ".xz"; std::string path = name + (sink == 0 ? ext : "");
+    std::string expect = payload(3000, 1, 0) + payload(70000, 4, 1) + payload(5, 2, 2);
+    fflush(stdout); fflush(stderr); pid_t p = fork();
+    if (p == 0) {
+        if (sink == 0) { if (comp == 1) g_static_writer.reset(new GzipCborOutputWriter(name)); else g_static_writer.reset(new XzCborOutputWriter(name)); }
+        else { int fd = open(path.c_str(), O_WRONLY | O_CREAT | O_TRUNC, 0600); if (comp == 1) g_static_writer.reset(new GzipCborOutputWriter(fd)); else g_static_writer.reset(new XzCborOutputWriter(fd)); }
+        std::string a = payload(3000, 1, 0), b = payload(70000, 4, 1), c = payload(5, 2, 2);
+        g_static_writer->write(a.data(), a.size()); g_static_writer->write(b.data(), b.size()); g_static_writer->write(c.data(), c.size());
+        exit(0);   // not _exit: static destructors run, the writer closes its stream there
+    }
+    int st = 0; waitpid(p, &st, 0); R.count("transitions", 4); R.count("static_exit_runs");
+    std::string tag = std::string("static-exit|") + (comp == 1 ? "gzip" : "xz") + (sink ? "|fd" : "|name");
+    if (!WIFEXITED(st) || WEXITSTATUS(st) != 0) out.push_back({"abnormal-exit|" + tag, "process whose writer is destroyed by exit() ended with " + (WIFSIGNALED(st) ? "signal " + std::to_string(WTERMSIG(st)) : "status " + std::to_string(WEXITSTATUS(st)))});
+    std::string z = slurp(path), plain, why; struct stat sb;
+    if (stat(path.c_str(), &sb) != 0) out.push_back({"missing-output|" + tag, "no output under its final name after exit()"});
+    else { bool ok = comp == 1 ? gunzip1(z, plain, why) : unxz1(z, plain, why); if (!ok) out.push_back({"not-one-complete-stream|" + tag, why}); else if (plain != expect) out.push_back({"content-differs|" + tag, "decompressed " + std::to_string(plain.size()) + " bytes, written " + std::to_string(expect.size())}); }
+    unlink(path.c_str()); unlink((name + ext + ".part").c_str());
+}
+
 // end to end: the same records exported through CdnsExporter with compression `comp` and without; decompressed output must equal the plain one
 static void run_export(int comp, int sink, int nrec, int kind, Result& R, std::vector<CV>& out) {
     std::string base = g_dir + "/e" + std::to_string(getpid()) + "_"; uint64_t c0[4] = {g_gz_partial, g_gz_finish_more, g_xz_partial, g_xz_finish_more};
@@ -138,6 +162,9 @@ int main(int argc, char** argv) {
         if (sscanf(s.c_str(), "comp=%d;sink=%d;", &comp, &sink) != 2) return false; size_t p = s.find("steps="); if (p == std::string::npos) return false; p += 6;
         while (p < s.size()) { if (s[p] == 'R') { st.push_back({1, 0, 0}); p += 2; } else if (s[p] == 'S') { st.push_back({2, (size_t)strtoull(s.c_str() + p + 1, nullptr, 10), 0}); p = s.find(',', p) + 1; } else if (s[p] == 'W') { size_t sz; int c; if (sscanf(s.c_str() + p, "W%zuc%d,", &sz, &c) != 2) return false; st.push_back({0, sz, c}); p = s.find(',', p) + 1; } else break; } return true; };
     auto emit_dir = a.kv.count("emit") ? a.kv["emit"] : std::string();
+    if (!a.replay.empty() && slurp(a.replay).find("staticexit=") != std::string::npos) { std::string s = slurp(a.replay); s = s.substr(s.find("staticexit=")); int comp, sink; if (sscanf(s.c_str(), "staticexit=1;comp=%d;sink=%d", &comp, &sink) != 2) return done(2);
+        Pool rp(1, 300); rp.run(1, [&](uint64_t, Result& R) { std::vector<CV> out; run_static_exit(comp, sink, R, out); for (auto& v : out) R.violation("comp|" + v.key, v.what, s); },
+                               [&](uint64_t, const std::string& d, Result& R) { R.violation(std::string("comp|crash|static-exit|") + crash_key(d), d.substr(0, 800), s); }, total); return done(total.viol.empty() ? 0 : 1); }
     if (!a.replay.empty() && slurp(a.replay).find("export=") != std::string::npos) { std::string s = slurp(a.replay); s = s.substr(s.find("export=")); int comp, sink, n, kind; if (sscanf(s.c_str(), "export=1;comp=%d;sink=%d;n=%d;kind=%d", &comp, &sink, &n, &kind) != 4) return done(2);
         Pool rp(1, 900); rp.run(1, [&](uint64_t, Result& R) { std::vector<CV> out; run_export(comp, sink, n, kind, R, out); for (auto& v : out) R.violation("comp|" + v.key, v.what, s); },
                                [&](uint64_t, const std::string& d, Result& R) { R.violation(std::string("comp|crash|export|") + crash_key(d), d.substr(0, 800), s); }, total); return done(total.viol.empty() ? 0 : 1); }
@@ -147,7 +174,7 @@ int main(int argc, char** argv) {
     std::vector<size_t> sizes = {0, 1, 2, 2047, 2048, 2049, 65536, 1 << 20};
     std::vector<Step> alpha; for (size_t s : sizes) for (int c = 0; c < 4; c++) { if (s <= 2 && c > 1) continue; if (s == (1 << 20) && (c == 1 || c == 3) && !T) continue; alpha.push_back({0, s, c}); } alpha.push_back({1, 0, 0});
     int D = T ? 3 : 2;
-    struct Task { int comp, sink; std::vector<Step> st; bool expand; int exp_n = 0, exp_kind = 0; };
+    struct Task { int comp, sink; std::vector<Step> st; bool expand; int exp_n = 0, exp_kind = 0; bool static_exit = false; };
     std::vector<Task> tasks;
     for (int comp = 1; comp <= 2; comp++) for (int sink = 0; sink < 2; sink++) {
         tasks.push_back({comp, sink, {}, false});
@@ -172,10 +199,14 @@ int main(int argc, char** argv) {
           tasks.push_back({comp, sink, {{2, cap, 0}, {0, 65536, 2}}, false}); tasks.push_back({comp, sink, {{2, cap, 0}, {0, 2049, 1}, {1, 0, 0}, {0, 65536, 4}, {0, 1, 0}, {1, 0, 0}, {0, 300000, 2}}, false}); }
       // end to end through the exporter (chunks of 2040..2048 bytes as the encoder flushes them)
       for (int comp = 1; comp <= 2; comp++) for (int sink = 0; sink < 2; sink++) for (int kind = 0; kind < 3; kind++) { if (!T && (kind == 1 || (comp == 2 && sink == 1))) continue; Task t{comp, sink, {}, false}; t.exp_n = T ? 60000 : 25000; t.exp_kind = kind; tasks.push_back(t); } }
+    // only in the dedicated stage (AddressSanitizer build): without a sanitizer the use of a destroyed static may or may not be noticed, which would not replay
+    if (a.mode == "static-exit") { tasks.clear(); for (int comp = 1; comp <= 2; comp++) for (int sink = 0; sink < 2; sink++) { Task t{comp, sink, {}, false}; t.static_exit = true; tasks.push_back(t); } }
     Pool pool(a.jobs, 900);
     pool.run(tasks.size(), [&](uint64_t ti, Result& R) {
         if (a.expired()) { R.deadline_hit = true; return; }
         const Task& t = tasks[ti];
+        if (t.static_exit) { std::string rep = "staticexit=1;comp=" + std::to_string(t.comp) + ";sink=" + std::to_string(t.sink); set_note(rep); std::vector<CV> out; run_static_exit(t.comp, t.sink, R, out); R.count("traces"); R.count("nontrivial");
+            for (auto& v : out) R.violation("comp|" + v.key, v.what + " [" + rep + "]", rep); R.outcome(std::string("static-exit-") + (t.comp == 1 ? "gz" : "xz") + (out.empty() ? ":ok" : ":viol")); return; }
         if (t.exp_n) { std::string rep = "export=1;comp=" + std::to_string(t.comp) + ";sink=" + std::to_string(t.sink) + ";n=" + std::to_string(t.exp_n) + ";kind=" + std::to_string(t.exp_kind); set_note(rep); std::vector<CV> out; run_export(t.comp, t.sink, t.exp_n, t.exp_kind, R, out);
             R.count("traces"); R.count("nontrivial"); R.count("export_runs"); for (auto& v : out) R.violation("comp|" + v.key, v.what + " [" + rep + "]", rep); R.outcome(std::string("export-") + (t.comp == 1 ? "gz" : "xz") + (out.empty() ? ":ok" : ":viol")); R.sample(rep); return; }
         auto exec = [&](const std::vector<Step>& st) { std::string rep = "comp=" + std::to_string(t.comp) + ";sink=" + std::to_string(t.sink) + ";steps=" + steps_str(st); set_note(rep); std::vector<CV> out; run_seq(t.comp, t.sink, st, R, out); R.count("traces"); if (!st.empty()) R.count("nontrivial");
